@@ -259,6 +259,17 @@ def translate_try_skip(exe_tree):
              and n.func.attr == "mark_completed"]
     if len(marks) != 1 or _u(marks[0]) != "step.mark_completed(new_hash, False)":
         raise TranslatorError(f"{where}: the skip does not record `step.mark_completed(new_hash, False)`")
+    # the record is written only in the branch where no input record was overtaken; the other branch keeps the
+    # step PENDING and writes no hash (statement level: any `if <name>:` / `if not <name>:` split is accepted)
+    for st in rest:
+        for n in ast.walk(st):
+            if isinstance(n, ast.If) and any(m is marks[0] for b in n.body + n.orelse for m in ast.walk(b)):
+                other = n.orelse if any(m is marks[0] for b in n.body for m in ast.walk(b)) else n.body
+                for b in other:
+                    for m in ast.walk(b):
+                        if isinstance(m, ast.Call) and isinstance(m.func, ast.Attribute) \
+                                and m.func.attr in ("mark_completed", "set_hash", "update_file_hashes"):
+                            raise TranslatorError(f"{where}: the branch that does not record the skip calls {_u(m)[:60]}")
     # no other comparison of digests after the two tests
     for st in rest:
         for n in ast.walk(st):
